@@ -219,7 +219,12 @@ def abs (h : Heap) : Nat → Option Addr → Val
     | .sym none _ => .sym (.gen a)
     | .trap n t => .trap (abs h fuel n) (abs h fuel t)
     | .md v m => .md (abs h fuel v) m
-    | .fn k r ps b e m => .fn k r (absList h fuel ps) (abs h fuel b) (abs h fuel e) m
+    | .fn k r ps b e m =>
+      if r then
+        match ps.reverse with
+        | last :: initRev => .fn k (abs h fuel (some last)) (absList h fuel initRev.reverse) (abs h fuel b) (abs h fuel e) m
+        | [] => .fn k .nil .nil (abs h fuel b) (abs h fuel e) m
+      else .fn k .nil (absList h fuel ps) (abs h fuel b) (abs h fuel e) m
 def absList (h : Heap) : Nat → List Addr → Val
   | _, [] => .nil
   | 0, _ :: _ => .nil
